@@ -3,6 +3,8 @@ package rules
 import (
 	"fmt"
 	"go/token"
+	"go/types"
+	"regexp"
 	"strings"
 
 	"golang.org/x/tools/go/ssa"
@@ -12,11 +14,52 @@ import (
 
 func init() { Registry["C19"] = c19 }
 
+// everyIteration: the action at n is performed on every iteration of every loop around it (along the calling
+// context chain), and none of these loops can be left early on a path that continues normally: the nearest loop
+// performs n itself on each iteration, every outer loop reaches the test of the next inner one on each iteration.
+func (e *Env) everyIteration(ob *core.Obligation, g *core.XG, n *core.Node, what string) (ok bool, nLoops int) {
+	las := g.EnclLoops(n)
+	if len(las) == 0 {
+		return false, 0
+	}
+	ok = true
+	for i, la := range las {
+		if i == 0 {
+			if !e.forAllIn(ob, g, la, n, func(m *core.Node) bool { return m == n }, core.Scenario{}, what) {
+				ok = false
+			}
+			continue
+		}
+		inner := las[i-1]
+		innerStart, _, okT := g.LoopTest(inner)
+		if !okT {
+			innerStart = g.FirstNodeOf(inner.At.Ctx, inner.L.Header)
+		}
+		if innerStart == nil {
+			ob.Unknown(g.Where(n), "inner loop shape not recognised")
+			return false, len(las)
+		}
+		if !e.forAllIn(ob, g, la, n, func(m *core.Node) bool { return m == innerStart || m == n }, core.Scenario{}, what+" (outer loop)") {
+			ok = false
+		}
+	}
+	// the action must not sit on the way out of a loop
+	for x := n; x != nil; x = x.Ctx.CallNode {
+		if x.Instr != nil && len(core.ExitBlockOf(x.Instr)) > 0 {
+			ok = false
+			ob.Fail(g.Where(n), what+" sits on the way out of a loop (only the first item is handled)")
+		}
+		if x.Ctx.Parent == nil {
+			break
+		}
+	}
+	return ok, len(las)
+}
+
 func c19(e *Env) {
 	r := e.R
-	r.Explanation = "Only the structural clauses of the bundled components are decided (thin by nature): (R1) sources (FileSource, ParamSource, FileGlobber, FileToParamsReader, CommandToParams): every port send sits in loop(s) over the configured items / scanned lines / glob matches that cannot be left early, and is executed on every iteration; (R2) combinators: every in-port is drained to closure before combining, one sender goroutine per out-port iterates its whole slice, WaitGroup Add/Done are paired (one Add and one go per iteration, Done on every returning path of the sender) and Wait precedes the return; the head's repetition factor in `combine` is the length of the already combined tail (value-flow: rooted in the recursive call's result); (R3) IPSelectorSync: one receive per in-port per round; if the predicate rejects any member no member of that tuple is sent; if it accepts all members, every member is sent - and this decision does not depend on earlier tuples (no loop-carried state); (R4) FileSplitter: every part is closed, then finalised, then sent, in that order; (R5) Concatenator: per input, its content and a newline are written; all handles are closed before any send."
+	r.Explanation = "Only the structural clauses of the bundled components are decided (thin by nature): (R1) sources (FileSource, ParamSource, FileGlobber, FileToParamsReader, CommandToParams): every port send sits in loop(s) over the configured items / scanned lines / glob matches that cannot be left early, and is executed on every iteration; (R2) combinators: every in-port is drained to closure before combining, one sender goroutine per out-port iterates its whole slice, WaitGroup Add/Done are paired (one Add and one go per iteration, Done on every returning path of the sender) and Wait precedes the return; the head's repetition factor in `combine` is the length of the already combined tail (value-flow: rooted in the recursive call's result); (R3) IPSelectorSync: one receive per in-port per round; if the predicate rejects any member no member of that tuple is sent; if it accepts all members, every member is sent - and this decision does not depend on earlier tuples (no loop-carried state); (R4) FileSplitter: every part is closed, then finalised, then sent, in that order; (R5) Concatenator: per input, its content and a newline are written; all handles are closed before any send. All rules are evaluated on the expanded call tree of the component's Run (helpers a Run is split into are looked through)."
 	r.NotDecided = "everything data-dependent: contents and alignment of the Cartesian product beyond the repetition-factor root, split arithmetic (no part longer than the limit, parts concatenating back to the input), glob semantics, line contents, arrival-order of concatenated content. These are most of the property and are outside this family."
-	p := e.P
 	pts := e.processTypes()
 	// ---- R1 sources
 	for _, src := range []string{"FileSource", "ParamSource", "FileGlobber", "FileToParamsReader", "CommandToParams"} {
@@ -36,33 +79,10 @@ func c19(e *Env) {
 				continue
 			}
 			n0++
-			okN := true
-			nLoops := 0
-			for x := n; ; x = x.Ctx.CallNode {
-				ls := core.LoopsOf(x.Instr)
-				for i, l := range ls {
-					nLoops++
-					if ex := p.EarlyExits(l); len(ex) > 0 {
-						okN = false
-						ob.Fail(g.Where(n), "an emission loop can be left early: "+ex[0])
-					}
-					if i == 0 && !core.OncePerIteration(l, x.Instr) {
-						okN = false
-						ob.Fail(g.Where(n), "the send is not executed on every iteration of its loop (items are skipped conditionally)")
-					}
-				}
-				for _, l := range core.ExitBlockOf(x.Instr) {
-					_ = l
-					okN = false
-					ob.Fail(g.Where(n), "the send sits on the way out of a loop (only the first item is sent)")
-				}
-				if x.Ctx == g.Root || x.Ctx.CallNode == nil {
-					break
-				}
-			}
+			okN, nLoops := e.everyIteration(ob, g, n, "the send")
 			if nLoops == 0 {
-				okN = false
 				ob.Fail(g.Where(n), "the send is not inside a loop over the items")
+				continue
 			}
 			if okN {
 				ob.OK(g.Where(n), "send of "+trunc(e.argSym(n, 1).String(), 80)+" on every iteration")
@@ -84,6 +104,37 @@ func c19(e *Env) {
 	e.c19Concatenator(pts["components.Concatenator"])
 }
 
+// selfRecursive: the library function reachable from run that calls itself and takes a map (the combiner).
+func (e *Env) selfRecursive(run *ssa.Function) *ssa.Function {
+	var best *ssa.Function
+	for fn := range e.P.Reachable(run) {
+		if !e.P.IsLib(fn) || fn.Blocks == nil {
+			continue
+		}
+		hasMap := false
+		for _, pa := range fn.Params {
+			if _, ok := pa.Type().Underlying().(*types.Map); ok {
+				hasMap = true
+			}
+		}
+		if !hasMap {
+			continue
+		}
+		for _, b := range fn.Blocks {
+			for _, in := range b.Instrs {
+				if c, ok := in.(*ssa.Call); ok && c.Call.StaticCallee() == fn {
+					if best == nil || fn.Name() < best.Name() {
+						best = fn
+					}
+				}
+			}
+		}
+	}
+	return best
+}
+
+var headIndexRe = regexp.MustCompile(`\$\w+\[0\]`)
+
 func (e *Env) c19Combinator(name string, run *ssa.Function) {
 	r := e.R
 	p := e.P
@@ -99,12 +150,13 @@ func (e *Env) c19Combinator(name string, run *ssa.Function) {
 		return
 	}
 	sy := e.symbolizer()
+	comb := e.selfRecursive(run)
 	// drain: comma-ok receive loops on val∈In*Ports().Chan, complete, nested in a complete loop over the ports
 	nDrain := 0
 	drainExit := map[*core.Node]bool{}
 	for _, n := range g.Nodes {
 		u, ok := n.Instr.(*ssa.UnOp)
-		if !ok || u.Op != token.ARROW || !u.CommaOk || n.Ctx != g.Root {
+		if !ok || u.Op != token.ARROW || !u.CommaOk {
 			continue
 		}
 		chs := sy.InCtx(n.Ctx, u.X).String()
@@ -113,31 +165,21 @@ func (e *Env) c19Combinator(name string, run *ssa.Function) {
 		}
 		nDrain++
 		okL := true
-		ls := core.LoopsOf(u)
-		for _, l := range ls {
-			if ex := p.EarlyExits(l); len(ex) > 0 {
+		las := g.EnclLoops(n)
+		for _, la := range las {
+			if !e.loopHarmlessExits(g, la) {
 				okL = false
-				obD.Fail(g.Where(n), "a drain loop can be left early: "+ex[0])
+				obD.Fail(g.Where(n), "a drain loop can be left early")
 			}
 		}
-		if len(ls) < 2 {
+		if len(las) < 2 {
 			okL = false
 			obD.Fail(g.Where(n), "the drain is not a range over the channel nested in a range over all in-ports")
 		}
 		if okL {
 			obD.OK(g.Where(n), "range "+chs+" to closure, for every in-port")
-			// exit of the outermost loop
-			outer := ls[len(ls)-1]
-			if _, iff := core.HeaderTest(outer); iff != nil {
-				for _, m := range g.Nodes {
-					if m.Ctx == g.Root && m.Instr == ssa.Instruction(iff) {
-						for i, s := range iff.Block().Succs {
-							if !outer.Blocks[s] {
-								drainExit[m.Succs[i]] = true
-							}
-						}
-					}
-				}
+			for _, x := range g.LoopExitNodes(las[len(las)-1]) {
+				drainExit[x] = true
 			}
 		}
 	}
@@ -146,7 +188,7 @@ func (e *Env) c19Combinator(name string, run *ssa.Function) {
 	}
 	// combine call after the drain
 	isCombine := func(n *core.Node) bool {
-		return n.Callee != nil && n.Callee.Name() == "combine" && n.Ctx == g.Root && n.Kind != core.KAfter && n.Call != nil
+		return comb != nil && n.Callee == comb && n.Kind != core.KAfter && n.Call != nil && !n.Ctx.Has(comb)
 	}
 	must := g.Forward(func(n *core.Node) core.Transfer {
 		if drainExit[n] {
@@ -162,7 +204,7 @@ func (e *Env) c19Combinator(name string, run *ssa.Function) {
 	// senders
 	var gos, adds, waits []*core.Node
 	for _, n := range g.Nodes {
-		if n.Ctx != g.Root {
+		if n.Kind == core.KAfter {
 			continue
 		}
 		switch {
@@ -180,23 +222,22 @@ func (e *Env) c19Combinator(name string, run *ssa.Function) {
 		fail(core.FuncName(run), fmt.Sprintf("%d go statements, %d wg.Add, %d wg.Wait (1/1/≥1 expected)", len(gos), len(adds), len(waits)))
 	} else {
 		gn, an := gos[0], adds[0]
-		lg, la := core.InnermostLoop(gn.Instr), core.InnermostLoop(an.Instr)
-		if lg == nil || la == nil || lg.Header != la.Header {
+		lg, okG := e.loopOver(g, gn, "")
+		la, okA := e.loopOver(g, an, "")
+		if !okG || !okA || lg.L.Header != la.L.Header || lg.At.Ctx != la.At.Ctx {
 			fail(g.Where(gn), "wg.Add and the go statement are not in the same loop over the out-ports")
 		} else {
-			if !core.OncePerIteration(lg, gn.Instr) || !core.OncePerIteration(la, an.Instr) {
-				fail(g.Where(gn), "wg.Add / go are not executed exactly once per out-port")
+			if !e.forAllIn(obS, g, lg, gn, func(m *core.Node) bool { return m == gn }, core.Scenario{}, "the go statement") ||
+				!e.forAllIn(obS, g, la, an, func(m *core.Node) bool { return m == an }, core.Scenario{}, "wg.Add") {
+				okS = false
 			}
 			if k, ok := an.Call.Args[len(an.Call.Args)-1].(*ssa.Const); !ok || k.Int64() != 1 {
 				fail(g.Where(an), "wg.Add argument is not 1 per goroutine")
 			}
-			if ex := p.EarlyExits(lg); len(ex) > 0 {
-				fail(g.Where(gn), "the loop starting the senders can be left early: "+ex[0])
-			}
 		}
 		// Wait after the loop on every returning path
 		after := g.BackwardMust(func(n *core.Node) core.Bits {
-			if n.IsCallTo("(*sync.WaitGroup).Wait") && n.Ctx == g.Root && !n.Deferred {
+			if n.IsCallTo("(*sync.WaitGroup).Wait") && !n.Deferred && n.Kind != core.KAfter {
 				return 1
 			}
 			return 0
@@ -210,10 +251,10 @@ func (e *Env) c19Combinator(name string, run *ssa.Function) {
 			if gs != nil {
 				var sends, dones []*core.Node
 				for _, m := range gs.Nodes {
-					if _, ok := isPortSend(m); ok && m.Ctx == gs.Root && m.Kind != core.KAfter {
+					if _, ok := isPortSend(m); ok && m.Kind != core.KAfter {
 						sends = append(sends, m)
 					}
-					if m.IsCallTo("(*sync.WaitGroup).Done") {
+					if m.IsCallTo("(*sync.WaitGroup).Done") && m.Kind != core.KAfter {
 						dones = append(dones, m)
 					}
 				}
@@ -221,8 +262,7 @@ func (e *Env) c19Combinator(name string, run *ssa.Function) {
 					fail(core.FuncName(f), fmt.Sprintf("%d sends in the sender (1 in a loop expected)", len(sends)))
 				} else {
 					sn := sends[0]
-					l := core.InnermostLoop(sn.Instr)
-					if l == nil || len(p.EarlyExits(l)) > 0 || !core.OncePerIteration(l, sn.Instr) {
+					if okE, nL := e.everyIteration(obS, gs, sn, "the sender's send"); !okE || nL == 0 {
 						fail(gs.Where(sn), "the sender does not send every element of its slice (loop missing, left early, or send conditional)")
 					}
 				}
@@ -237,83 +277,87 @@ func (e *Env) c19Combinator(name string, run *ssa.Function) {
 				}
 			}
 		} else {
-			fail(g.Where(gn), "sender is not a function literal")
+			fail(g.Where(gn), "sender is not a function literal or method")
 		}
 	}
 	if okS {
 		obS.OK(core.FuncName(run), "Add(1)+go per out-port; sender: full range + Done; Wait before return")
 	}
 	// combine factor
-	var comb *ssa.Function
-	for fn := range p.Reachable(run) {
-		if fn.Name() == "combine" && p.IsLib(fn) {
-			comb = fn
-		}
-	}
 	if comb == nil {
-		obC.Unknown(core.FuncName(run), "combine function not found")
+		obC.Unknown(core.FuncName(run), "combine function (self-recursive function over a map, reachable from Run) not found")
 		return
 	}
+	gc := e.XG(comb)
+	if gc == nil {
+		return
+	}
+	// helpers are looked through, the recursion itself stays visible as a call
+	csy := p.NewSymbolizer(func(f *ssa.Function) bool { return f != comb && (f.Object() == nil || !f.Object().Exported()) })
 	found := false
-	for _, b := range comb.Blocks {
-		iff, ok := b.Instrs[len(b.Instrs)-1].(*ssa.If)
-		if !ok {
+	for _, n := range gc.Nodes {
+		if !n.IsBuiltin("append") || n.Kind == core.KAfter || len(n.Call.Args) < 2 {
+			continue
+		}
+		// an element of the head row (the row of the first key) is appended ...
+		isHead := false
+		for _, pc := range appendedPieces(&core.Sym{Op: "call", Name: "builtin.append", Args: []*core.Sym{{Op: "nil"}, csy.InCtx(n.Ctx, n.Call.Args[1])}}) {
+			ps := pc.String()
+			if (pc.Op == "rangeval" || pc.Op == "elem") && headIndexRe.MatchString(ps) && !strings.Contains(ps, core.FuncName(comb)+"(") {
+				isHead = true
+			}
+		}
+		if !isHead {
+			continue
+		}
+		// ... inside a counted loop: its bound is the repetition factor
+		las := iterLoops(gc, n)
+		if len(las) == 0 {
+			continue
+		}
+		kind, iff := core.HeaderTest(las[0].L)
+		if kind != "counted" {
 			continue
 		}
 		bo, ok := iff.Cond.(*ssa.BinOp)
-		if !ok || bo.Op != token.LSS {
-			continue
-		}
-		c, ok := bo.Y.(*ssa.Call)
 		if !ok {
 			continue
 		}
-		if bi, ok := c.Call.Value.(*ssa.Builtin); !ok || bi.Name() != "len" {
+		var bound *core.Sym
+		for _, v := range []ssa.Value{bo.Y, bo.X} {
+			if _, isPhi := v.(*ssa.Phi); isPhi {
+				continue
+			}
+			bound = csy.InCtx(las[0].At.Ctx, v)
+			break
+		}
+		if bound == nil {
 			continue
 		}
-		arg := sy.InFunc(comb, c.Call.Args[0])
-		as := arg.String()
-		// the head-repetition loop: bound is len(<map>[<key>]) of a slice element
-		if arg.Op != "elem" {
-			continue
-		}
-		// it must be the inner loop whose body appends the head element
-		isHeadLoop := false
-		if l := naturalLoopOf(b); l != nil {
-			for lb := range l.Blocks {
-				for _, in := range lb.Instrs {
-					if cc, ok := in.(*ssa.Call); ok {
-						if bi, ok := cc.Call.Value.(*ssa.Builtin); ok && bi.Name() == "append" {
-							s2 := sy.InFunc(comb, cc.Call.Args[1]).String()
-							if (strings.Contains(s2, "[headKey]") || strings.Contains(s2, "$keys[0]") || strings.Contains(s2, "[0]]")) && core.InnermostLoop(cc) != nil && core.InnermostLoop(cc).Header == b {
-								isHeadLoop = true
-							}
+		as := bound.String()
+		if headIndexRe.MatchString(as) && !strings.Contains(as, core.FuncName(comb)+"(") && strings.HasPrefix(as, "builtin.len(") && las[0].At == n {
+			// the loop that walks over the head row itself (range over a slice is an index loop): the repetition
+			// loop, if any, is inside it
+			if len(las) == 1 || true {
+				isRow := false
+				if bl, ok := bound.Args[0], len(bound.Args) == 1; ok {
+					for _, pc := range appendedPieces(&core.Sym{Op: "call", Name: "builtin.append", Args: []*core.Sym{{Op: "nil"}, csy.InCtx(n.Ctx, n.Call.Args[1])}}) {
+						if (pc.Op == "elem" || pc.Op == "rangeval") && len(pc.Args) > 0 && pc.Args[0].String() == bl.String() {
+							isRow = true
 						}
 					}
 				}
+				if isRow {
+					continue
+				}
 			}
 		}
-		if !isHeadLoop {
-			continue
-		}
 		found = true
-		obC.Check(strings.Contains(as, "combine("), e.where(bo), "factor = len("+trunc(as, 100)+")", "the head is repeated len("+trunc(as, 120)+") times, which is the length of a raw input stream, not of the combined tail: with three or more ports the out-ports get different lengths (misaligned product)")
+		obC.Check(strings.Contains(as, core.FuncName(comb)+"(") && strings.Contains(as, "builtin.len("), gc.Where(n), "factor = "+trunc(as, 100), "the head is repeated "+trunc(as, 120)+" times, which is the length of a raw input stream, not of the combined tail: with three or more ports the out-ports get different lengths (misaligned product)")
 	}
 	if !found {
-		obC.Unknown(core.FuncName(comb), "head-repetition loop `for i := 0; i < len(tail[k]); i++` not recognised")
+		obC.Unknown(core.FuncName(comb), "head-repetition loop `for i := 0; i < len(tail[k]); i++ { append(head element) }` not recognised")
 	}
-}
-
-func naturalLoopOf(h *ssa.BasicBlock) *core.Loop {
-	if len(h.Instrs) == 0 {
-		return nil
-	}
-	for _, l := range core.LoopsOf(h.Instrs[len(h.Instrs)-1]) {
-		if l.Header == h {
-			return l
-		}
-	}
-	return nil
 }
 
 func (e *Env) c19Selector(run *ssa.Function) {
@@ -326,40 +370,55 @@ func (e *Env) c19Selector(run *ssa.Function) {
 	}
 	p := e.P
 	sy := e.symbolizer()
-	// receive helper
-	if rh := p.DeclaredMethod("components", "IPSelectorSync", "recvOneEach"); rh != nil {
-		gh := e.XG(rh)
-		n0 := 0
-		if gh != nil {
-			for _, n := range gh.Nodes {
-				u, ok := n.Instr.(*ssa.UnOp)
-				if !ok || u.Op != token.ARROW || n.Ctx != gh.Root {
-					continue
-				}
-				chs := sy.InCtx(n.Ctx, u.X).String()
-				if !strings.HasPrefix(chs, "val∈") {
-					continue
-				}
-				n0++
-				if e.forAllOutputs(obR, gh, n, func(m *core.Node) bool { return m == n }, core.Scenario{}, "one receive per in-port") {
-					obR.OK(gh.Where(n), "receive on "+chs+" for every in-port")
+	// the function(s) receiving on the in-port channels, anywhere in Run's call graph (goroutines included)
+	n0 := 0
+	for _, rh := range p.LibFuncs {
+		if !p.Reachable(run)[rh] && rh != run {
+			continue
+		}
+		has := false
+		for _, b := range rh.Blocks {
+			for _, in := range b.Instrs {
+				if u, ok := in.(*ssa.UnOp); ok && u.Op == token.ARROW {
+					if s := sy.InFunc(rh, u.X).String(); strings.HasPrefix(s, "val∈") && strings.Contains(s, "Ports(") {
+						has = true
+					}
 				}
 			}
 		}
-		if n0 != 1 {
-			obR.Fail(core.FuncName(rh), fmt.Sprintf("%d receives on in-port channels per round (exactly 1, in the loop over the ports, expected)", n0))
+		if !has {
+			continue
 		}
-	} else {
-		obR.Unknown("-", "recvOneEach not found")
+		gh := e.XG(rh)
+		if gh == nil {
+			continue
+		}
+		for _, n := range gh.Nodes {
+			u, ok := n.Instr.(*ssa.UnOp)
+			if !ok || u.Op != token.ARROW || n.Ctx != gh.Root {
+				continue
+			}
+			chs := sy.InCtx(n.Ctx, u.X).String()
+			if !strings.HasPrefix(chs, "val∈") {
+				continue
+			}
+			n0++
+			if e.forAllOutputs(obR, gh, n, func(m *core.Node) bool { return m == n }, core.Scenario{}, "one receive per in-port") {
+				obR.OK(gh.Where(n), "receive on "+chs+" for every in-port")
+			}
+		}
+	}
+	if n0 != 1 {
+		obR.Fail(core.FuncName(run), fmt.Sprintf("%d receives on in-port channels per round (exactly 1, in the loop over the ports, expected)", n0))
 	}
 	g := e.XG(run)
 	if g == nil {
 		return
 	}
 	isPred := func(n *core.Node) bool {
-		return n.IsDynCall() && n.Ctx == g.Root && fieldOfLoad(n.Call.Value) != nil && fieldOfLoad(n.Call.Value).Name() == "includeFunc"
+		return n.IsDynCall() && n.Kind != core.KAfter && fieldOfLoad(n.Call.Value) != nil && fieldOfLoad(n.Call.Value).Name() == "includeFunc"
 	}
-	isSendN := func(n *core.Node) bool { _, ok := isPortSend(n); return ok && n.Kind != core.KAfter && n.Ctx == g.Root }
+	isSendN := func(n *core.Node) bool { _, ok := isPortSend(n); return ok && n.Kind != core.KAfter }
 	// outer loop head: the comma-ok receive from the syncRead channel
 	var head *core.Node
 	for _, n := range g.Nodes {
@@ -402,9 +461,12 @@ func (e *Env) c19Selector(run *ssa.Function) {
 		obD.Fail(g.Where(head), "even when the predicate accepts every member, a tuple can be dropped: the decision depends on state carried over from earlier tuples (e.g. a flag that is never reset), or the send is conditional on something else")
 	}
 	for _, sn := range sends {
-		if l := core.InnermostLoop(sn.Instr); l == nil || len(p.EarlyExits(l)) > 0 || !core.OncePerIteration(l, sn.Instr) {
+		la, ok := e.loopOver(g, sn, "")
+		if !ok || !e.forAllIn(obD, g, la, sn, func(m *core.Node) bool { return m == sn }, core.Scenario{}, "the send of a tuple member") {
 			okAll = false
-			obD.Fail(g.Where(sn), "not every member of an accepted tuple is sent (send loop missing, left early or conditional)")
+			if !ok {
+				obD.Fail(g.Where(sn), "not every member of an accepted tuple is sent (send loop missing)")
+			}
 		}
 	}
 	if okAll {
@@ -427,9 +489,9 @@ func (e *Env) c19Splitter(run *ssa.Function) {
 		evClose core.Bits = 1 << iota
 		evFin
 	)
-	isSendN := func(n *core.Node) bool { _, ok := isPortSend(n); return ok && n.Kind != core.KAfter && n.Ctx == g.Root }
-	isFin := func(n *core.Node) bool { return n.Callee != nil && n.Callee.Name() == "FinalizePaths" && n.Ctx == g.Root && n.Kind != core.KAfter }
-	isClose := func(n *core.Node) bool { return n.IsCallTo("(*os.File).Close") && n.Ctx == g.Root && !n.Deferred }
+	isSendN := func(n *core.Node) bool { _, ok := isPortSend(n); return ok && n.Kind != core.KAfter }
+	isFin := func(n *core.Node) bool { return n.Callee != nil && n.Callee.Name() == "FinalizePaths" && n.Kind != core.KAfter }
+	isClose := func(n *core.Node) bool { return n.IsCallTo("(*os.File).Close") && !n.Deferred && n.Kind != core.KAfter }
 	must := g.Forward(func(n *core.Node) core.Transfer {
 		switch {
 		case isSendN(n):
@@ -451,10 +513,16 @@ func (e *Env) c19Splitter(run *ssa.Function) {
 	ob2 := r.Ob("R4", "FileSplitter:write-per-line", "one write per scanned line (in the scan loop, unconditionally)")
 	n0 := 0
 	for _, n := range g.Nodes {
-		if n.IsCallTo("(*os.File).WriteString", "(*os.File).Write") && n.Ctx == g.Root {
+		if n.IsCallTo("(*os.File).WriteString", "(*os.File).Write") && n.Kind != core.KAfter {
 			n0++
-			l := core.InnermostLoop(n.Instr)
-			ob2.Check(l != nil && core.OncePerIteration(l, n.Instr), g.Where(n), "write on every iteration of the scan loop", "the write of a line is conditional or outside the scan loop")
+			las := g.EnclLoops(n)
+			if len(las) == 0 {
+				ob2.Fail(g.Where(n), "the write of a line is outside the scan loop")
+				continue
+			}
+			if e.forAllIn(ob2, g, las[0], n, func(m *core.Node) bool { return m == n }, core.Scenario{}, "the write of a line") {
+				ob2.OK(g.Where(n), "write on every iteration of the scan loop")
+			}
 		}
 	}
 	if n0 == 0 {
@@ -474,8 +542,8 @@ func (e *Env) c19Concatenator(run *ssa.Function) {
 	if g == nil {
 		return
 	}
-	isSendN := func(n *core.Node) bool { _, ok := isPortSend(n); return ok && n.Kind != core.KAfter && n.Ctx == g.Root }
-	isClose := func(n *core.Node) bool { return n.IsCallTo("(*os.File).Close") && n.Ctx == g.Root }
+	isSendN := func(n *core.Node) bool { _, ok := isPortSend(n); return ok && n.Kind != core.KAfter }
+	isClose := func(n *core.Node) bool { return n.IsCallTo("(*os.File).Close") && n.Kind != core.KAfter }
 	may := g.Forward(func(n *core.Node) core.Transfer {
 		if isSendN(n) {
 			return core.Transfer{Gen: 1}
@@ -490,16 +558,14 @@ func (e *Env) c19Concatenator(run *ssa.Function) {
 	if nc == 0 {
 		ob.Fail(core.FuncName(run), "the output handles are never closed")
 	}
-	// writes: in the receive loop, each branch has two writes: data then "\n"
-	sy := e.symbolizer()
-	var writes []*core.Node
-	for _, n := range g.Nodes {
-		if n.IsCallTo("(*os.File).Write", "(*os.File).WriteString") && n.Ctx == g.Root {
-			writes = append(writes, n)
-		}
-	}
+	// writes: in the receive loop, each branch has two writes: data then "\n" (a write helper called from
+	// several places counts once per calling context)
+	sy := e.fsym()
 	data, nl := 0, 0
-	for _, n := range writes {
+	for _, n := range g.Nodes {
+		if !n.IsCallTo("(*os.File).Write", "(*os.File).WriteString") || n.Kind == core.KAfter {
+			continue
+		}
 		s := sy.InCtx(n.Ctx, n.Call.Args[1]).String()
 		switch {
 		case strings.Contains(s, "ReadFile("):
@@ -507,7 +573,7 @@ func (e *Env) c19Concatenator(run *ssa.Function) {
 		case strings.Contains(s, "\"\\n\""):
 			nl++
 		}
-		if core.InnermostLoop(n.Instr) == nil {
+		if len(g.EnclLoops(n)) == 0 {
 			ob2.Fail(g.Where(n), "a write is outside the loop over the received IPs")
 		}
 	}
